@@ -40,8 +40,12 @@ from vk import sym as S
 from vk.harness import ObResult, obligation
 from vk.tensor import P, PC
 
+from vk.ops_mod2 import ensure_view_getitem
+
 from . import mods
 from .codes import Cfg, split_variant, with_variants
+
+ensure_view_getitem()
 
 FM = "kaira/modulations/"
 RTOL = Fraction(1, 10**6)
@@ -344,23 +348,51 @@ def change_variables(g, keep):
     return go(g)
 
 
+def _free_vars(t, acc=None, seen=None):
+    acc = set() if acc is None else acc
+    seen = set() if seen is None else seen
+    if t.get_id() in seen:
+        return acc
+    seen.add(t.get_id())
+    if z3.is_const(t) and t.decl().kind() == z3.Z3_OP_UNINTERPRETED:
+        acc.add(str(t))
+    for c in t.children():
+        _free_vars(c, acc, seen)
+    return acc
+
+
 def _try(ctx, name, g, note):
-    """ctx.ensure on a candidate (generalised) claim; its record is kept only if z3 proved it"""
-    real, tmp = ctx.acc, {}
-    ctx.acc = tmp
+    """try to prove the candidate g (which implies the clause) with z3 under the path's assumptions and path condition; side
+    constraints (definitions of auxiliary Sqrt variables) are used only when they share a variable with g - dropping hypotheses
+    can only make the proof harder.  The clause is recorded as discharged (backend z3) only on `unsat`."""
+    ex = ctx.ex
+    gv = _free_vars(g)
+    s = z3.Solver()
+    s.set("timeout", ex.solver.params().get("timeout") if False else _TIMEOUT[0])
+    for c in ex.assumes + ex.pc:
+        s.add(c)
+    for c in ex.sides:
+        if _free_vars(c) & gv:
+            s.add(c)
+    s.add(z3.Not(g))
+    t0 = time.time()
     try:
-        ctx.ensure(name, S.Sym(g), note=note)
-    finally:
-        ctx.acc = real
-    rec = tmp.get(name)
-    if rec is None or rec["refuted"] is not None or rec["unknown"]:
+        r = s.check()
+    except z3.Z3Exception:
+        r = z3.unknown
+    dt = time.time() - t0
+    ex.nqueries += 1
+    ex.solver_time += dt
+    if r != z3.unsat:
         return False
-    if name in real:
-        for k in ("paths", "nf", "smt", "solver_s"):
-            real[name][k] += rec[k]
-    else:
-        real[name] = rec
+    rec = ctx.acc.setdefault(name, {"paths": 0, "refuted": None, "unknown": 0, "nf": 0, "smt": 0, "note": note, "solver_s": 0.0})
+    rec["paths"] += 1
+    rec["smt"] += 1
+    rec["solver_s"] += dt
     return True
+
+
+_TIMEOUT = [40000]
 
 
 def _prove(ctx, name, claims, how, keep=(), note="", stronger=None):
@@ -387,14 +419,14 @@ def _prove(ctx, name, claims, how, keep=(), note="", stronger=None):
             except z3.Z3Exception:
                 continue
             what = ("exact equality (stronger than the 1e-6 tolerance); " if i < len(cands) - 1 else "") + f"{tag} replaced by fresh universally quantified reals"
-            if _try(ctx, name, g, (note + " | " if note else "") + "proved on the generalised claim: " + what):
+            pre = (note + " | " if note else "") + "proved on the generalised claim: " + what
+            g2 = change_variables(g, keep) if how == "opaque" else None
+            if g2 is not None and _try(ctx, name, g2, pre + "; distances under a division by the noise variance rescaled (v = q * nv, nv > 0)"):
                 done = True
                 break
-            if how == "opaque":
-                g2 = change_variables(g, keep)
-                if g2 is not None and _try(ctx, name, g2, (note + " | " if note else "") + "proved on the generalised claim: " + what + "; distances under a division by the noise variance rescaled (v = q * nv, nv > 0)"):
-                    done = True
-                    break
+            if _try(ctx, name, g, pre):
+                done = True
+                break
         if not done:
             ctx.ensure(name, claim, note=note)
 
@@ -425,9 +457,9 @@ def _layouts(cfg, tier):
     npts = mods.points(cfg)
     if cfg[0] == "pi4qpsk":
         return ["n2", "b12"]
-    if npts <= 16:
+    if npts <= (8 if cfg[0] == "psk" else 16):
         return ["n1", "b12"]
-    return ["n1"]
+    return ["n1"]  # the batched layout exercises indexing only, which does not depend on the constellation size
 
 
 SHAPES = {"n1": (1,), "n2": (2,), "b12": (1, 2), "b21": (2, 1)}
@@ -712,17 +744,27 @@ def dpsk_min_distance(ctx, vcfg):
     ctx.ensure("inputs_unmodified", S.land(out.unmodified, ref.unmodified))
 
 
-def _sqrt_unit_lemmas(ctx, hyp):
-    """for every Sqrt term s the engine introduced on this path (side constraint s >= 0 and s*s == r): try to prove s == 1 from
-    the hypothesis |z_t| = 1; returns the substitution list [(s, 1)] of the proved ones (used only under that hypothesis)"""
+def _sqrt_unit_lemmas(ctx, hyp, moduli=()):
+    """for every Sqrt term s the engine introduced on this path (side constraint s >= 0 and s*s == r): prove s == 1 from the
+    hypothesis |z_t|^2 = 1.  Fast route: r is, as a polynomial, identical to one of the squared moduli of the hypothesis
+    (z3.simplify(r - m, som=True) == 0), then s >= 0, s*s == 1 |- s == 1; otherwise the full query goes to z3.
+    Returns the substitution list [(s, 1)] of the proved ones (used only under that hypothesis)"""
     subs = []
     if ctx.mode != "sym":
         return subs
     h = S.zbool(hyp)
+    mods2 = [S.zreal(m) for m in moduli]
     for c in ctx.ex.sides:
-        if z3.is_and(c) and c.num_args() == 2 and z3.is_ge(c.arg(0)):
+        if z3.is_and(c) and c.num_args() == 2 and z3.is_ge(c.arg(0)) and z3.is_eq(c.arg(1)):
             s = c.arg(0).arg(0)
             if z3.is_const(s) and str(s).startswith("sqrt!"):
+                r = c.arg(1).arg(1)
+                if any(z3.is_rational_value(d) and d.numerator_as_long() == 0 for d in (z3.simplify(r - m, som=True) for m in mods2)):
+                    q = z3.Solver()
+                    q.add(s >= 0, s * s == 1, s != 1)
+                    if q.check() == z3.unsat:
+                        subs.append((s, z3.RealVal(1)))
+                        continue
                 q = z3.Solver()
                 q.set("timeout", 10000)
                 q.add(c, h, s != 1)
@@ -741,7 +783,12 @@ def _under(hyp, claim, subs):
     return S.Sym(z3.Implies(S.zbool(hyp), c))
 
 
-@obligation("C06.dpsk_soft_forward", function=DPSK_F, configs=lambda tier: with_variants(_dpsk_cfgs(tier), ["ref1", "gen", "pf", "ps"]), max_paths=64, timeout_ms=60000)
+def _dpsk_direct_cfgs(tier):
+    """the direct (non-modular) proof needs the solver to reason about minima over quotients: 16-DPSK only in the thorough tier"""
+    return with_variants([c for c in _dpsk_cfgs(tier) if mods.points(c) <= (8 if tier == "quick" else 16)], ["ref1", "gen", "pf", "ps"])
+
+
+@obligation("C06.dpsk_soft_forward", function=DPSK_F, configs=_dpsk_direct_cfgs, max_paths=64, timeout_ms=60000)
 def dpsk_soft_forward(ctx, vcfg):
     """ref1: y = (1, y1), 0-dim tensor sigma^2;  gen: y = (y0, y1) both symbolic;  pf: Python float sigma^2;  ps: y = (1, y1, y2), per-pair
     sigma^2 tensor.  Every clause is stated under the hypothesis |z_t| = 1 for the decision variables z_t = y_t conj(y_{t-1})
@@ -760,12 +807,13 @@ def dpsk_soft_forward(ctx, vcfg):
         yr = np.asarray([1] + list(y1r), dtype=object)
         yi = np.asarray([0] + list(y1i), dtype=object)
         y = _complex_tensor(ctx, yr, yi)
-    zs, hyps = [], []
+    zs, hyps, moduli = [], [], []
     for t in range(1, nsym):
         zr = S.add(S.mul(yr[t], yr[t - 1]), S.mul(yi[t], yi[t - 1]))
         zi = S.sub(S.mul(yi[t], yr[t - 1]), S.mul(yr[t], yi[t - 1]))
         zs.append((zr, zi))
         m2 = S.add(S.mul(zr, zr), S.mul(zi, zi))
+        moduli.append(m2)
         hyps.append(S.eq(m2, 1) if ctx.mode == "sym" else S.le(S.sabs(S.sub(m2, 1)), Fraction(1, 10**6)))
     hyp = SP.conj(hyps)
     if form == "ps":
@@ -791,7 +839,7 @@ def dpsk_soft_forward(ctx, vcfg):
     if not (SP.shape_is(out.value, want_shape) and SP.shape_is(ref.value, want_shape)):
         return
     ctx.ensure("kappa_positive", kappa > 0, note=f"kappa={kappa} read from {reading}")
-    subs = _sqrt_unit_lemmas(ctx, hyp)
+    subs = _sqrt_unit_lemmas(ctx, hyp, moduli)
     o, r = P(out.value), P(ref.value)
     C = sc.table(0)
     one_eps = S.add(1, EPS_NORM)
@@ -887,3 +935,105 @@ def dpsk_hard_bounded(spec, cfg, tier, seed):
         r.wall_s = round(time.time() - t0, 2)
         res.append(r)
     return res
+
+
+# ------------------------------------------------------------------------------------------------ DPSK forward, modular
+@obligation("C06.dpsk_forward_modular", function=FM + "dpsk.py:DPSKDemodulator.forward", configs=lambda tier: with_variants(_dpsk_cfgs(tier), ["t0", "ps"]), max_paths=64, timeout_ms=60000)
+def dpsk_forward_modular(ctx, vcfg):
+    """forward with `_min_distance_to_points` replaced by its contract (C06.dpsk_min_distance): the stub returns fresh symbols M_{k,b}
+    (universally quantified; natively it calls the real helper).  Clauses: the helper is called once per (bit k, value b) with the
+    points whose bit k is b, with the normalised decision variable zn = z/(|z|+1e-9) (stated under |z_t| = 1) and with 2 sigma^2;
+    the output is llr_k = gamma (M_{k,0} - M_{k,1}) with gamma > 0: since M_{k,b} = -min_{L_jk=b}|zn - C_j|^2/(2 sigma^2) by the
+    helper's contract this is the max-log identity with kappa = gamma/2."""
+    cfg, form = split_variant(vcfg)
+    sc = Scheme(cfg)
+    kappa, reading = read_kappa_dpsk(cfg)
+    gamma = 2 * kappa
+    nsym = 3
+    y = ctx.complexes("y", (nsym,), sampler=lambda r: r.choice([1.0, 0.0, -1.0, r.gauss(0, 1)]))
+    yr, yi = PC(y)
+    if form == "ps":
+        nvt = ctx.reals("nv", (nsym - 1,), sampler=lambda r: 10 ** r.uniform(-3, 3))
+        nvp = P(nvt)
+        for v in nvp.reshape(-1):
+            ctx.assume(S.lt(0, v))
+        nv_of = lambda t: nvp[t]
+        arg = nvt
+    else:
+        s = _positive(ctx, "nv")
+        nv_of = lambda t: s
+        arg = _nv_tensor(ctx, s)
+    calls = []
+    real_helper = sc.dem._min_distance_to_points
+
+    def stub(z, points, nv):
+        i = len(calls)
+        if ctx.mode == "sym":
+            ret = ctx.reals(f"M{i}", tuple(z.shape))
+        else:
+            ret = real_helper(z, points, nv)
+            ctx.drawn[f"M{i}"] = [float(v) for v in ret.reshape(-1)]  # the stub's return values are inputs of the obligation
+        calls.append((z, points, nv, ret))
+        return ret
+
+    sc.dem._min_distance_to_points = stub
+    out = ctx.call(sc.dem.forward, y, arg)
+    ctx.ensure("returns", out.ok, note=repr(out.exc) if not out.ok else sc.src)
+    if not out.ok:
+        return
+    ctx.ensure("output_shape", SP.shape_is(out.value, ((nsym - 1) * sc.b,)))
+    ctx.ensure("helper_called_once_per_bit_and_value", len(calls) == 2 * sc.b)
+    if len(calls) != 2 * sc.b or not SP.shape_is(out.value, ((nsym - 1) * sc.b,)):
+        return
+    zs, hyps, moduli = [], [], []
+    for t in range(1, nsym):
+        zr = S.add(S.mul(yr[t], yr[t - 1]), S.mul(yi[t], yi[t - 1]))
+        zi = S.sub(S.mul(yi[t], yr[t - 1]), S.mul(yr[t], yi[t - 1]))
+        zs.append((zr, zi))
+        m2 = S.add(S.mul(zr, zr), S.mul(zi, zi))
+        moduli.append(m2)
+        hyps.append(S.eq(m2, 1) if ctx.mode == "sym" else S.le(S.sabs(S.sub(m2, 1)), Fraction(1, 10**6)))
+    hyp = SP.conj(hyps)
+    subs = _sqrt_unit_lemmas(ctx, hyp, moduli)
+    C = sc.table(0)
+    one_eps = S.add(1, EPS_NORM)
+    o = P(out.value)
+    # which call serves which (bit, value): identified by the points it received
+    pts_ok, z_ok, nv_ok, comb = [], [], [], []
+    served = {}
+    for (z, points, nv, ret) in calls:
+        got = _cpoints(points if not hasattr(points, "re") else _lower(points))
+        for k in range(sc.b):
+            for b in (0, 1):
+                if got == [C[j] for j in _subset(sc, k, b)] and (k, b) not in served:
+                    served[(k, b)] = (z, nv, ret)
+                    break
+            else:
+                continue
+            break
+    ctx.ensure("helper_receives_the_points_of_each_bit_value", len(served) == 2 * sc.b, note="points compared exactly with constellation[bit_patterns[:, k] == b]")
+    if len(served) != 2 * sc.b:
+        return
+    tolz = 0 if ctx.mode == "sym" else Fraction(1, 10**5)
+    for (k, b), (z, nv, ret) in served.items():
+        zr_, zi_ = PC(z)
+        nvp_ = P(nv)
+        for t, (zr, zi) in enumerate(zs):
+            z_ok.append(S.land(S.le(S.sabs(S.sub(zr_[t], S.div(zr, one_eps))), tolz), S.le(S.sabs(S.sub(zi_[t], S.div(zi, one_eps))), tolz)))
+            want = S.mul(2, nv_of(t))
+            nv_ok.append(S.le(S.sabs(S.sub(nvp_[t], want)), S.mul(RTOL, want)))
+    for k in range(sc.b):
+        m0, m1 = P(served[(k, 0)][2]), P(served[(k, 1)][2])
+        for t in range(nsym - 1):
+            rhs = S.mul(gamma, S.sub(m0[t], m1[t]))
+            comb.append(S.eq(o[t * sc.b + k], rhs) if ctx.mode == "sym" else S.le(S.sabs(S.sub(o[t * sc.b + k], rhs)), S.add(S.mul(RTOL, S.sabs(rhs)), Fraction(1, 10**6))))
+    ctx.ensure("helper_receives_the_normalised_decision_variable", _under(hyp, SP.conj(z_ok), subs), note=f"under |z_t|=1; {len(subs)} Sqrt term(s) proved equal to 1 under that hypothesis and substituted")
+    ctx.ensure("helper_receives_twice_the_noise_variance", SP.conj(nv_ok))
+    ctx.ensure("gamma_positive", gamma > 0, note=f"gamma = 2 kappa = {gamma}; kappa read from {reading}")
+    ctx.ensure("llr_is_gamma_times_M0_minus_M1", SP.conj(comb), note=f"gamma={gamma}")
+
+
+def _lower(t):
+    from vk.tensor import lower
+
+    return lower(t)
